@@ -66,14 +66,18 @@ package tls
 //@   let p = kpos(c, sessionKey)
 //@   requires c != nil && wfcache(c)
 //@   requires keynum: skey(strid(sessionKey)) == sessionKey
-//@   modifies ghost(listseq, c.q)
+//@   track locks
+//@   modifies ghost(listseq, c.q), ghostall(lockst)
+//@   at before call MoveToFront#0: assert exclusive: ghost(lockst, callarg(Lock, 0, 0)) == 2
+//@   note exclusive (C36, race freedom): Get reorders the recency list, so it must hold the cache's mutex exclusively (ghost lock state 2 = Lock, 1 = RLock); with every access to c.q / c.m inside Get and Put, and both exclusive, no two accesses overlap
+//@   ensures unlocked: ghost(lockst, callarg(Lock, 0, 0)) == 0
 //@   ensures wf: wfcache(c)
 //@   ensures cap: seqlen(lseq(c)) <= c.capacity && seqlen(lseq(c)) == old(seqlen(lseq(c)))
 //@   ensures hit: has(c.m, sessionKey) ==> ret1 && ret0 == cstate(c, sessionKey)
 //@   ensures miss: !has(c.m, sessionKey) ==> !ret1 && ret0 == nil && lseq(c) == old(lseq(c))
 //@   ensures hitfront: has(c.m, sessionKey) ==> kpos(c, sessionKey) == 0
 //@   ensures hitorder: has(c.m, sessionKey) ==> forall j: has(c.m, skey(j)) && skey(j) != sessionKey ==> kpos(c, skey(j)) == old(kpos(c, skey(j))) + ite(old(kpos(c, skey(j))) < p, 1, 0)
-//@   note sequential refinement only: the mutex operations are no-ops for the verifier
+//@   note functional clauses: sequential refinement; interleavings are not considered, only the lock discipline above
 
 // Put(k, cs) against the LRU map model (P: k cached at entry, L: number of entries at entry, p: rank of k):
 //   cs == nil            delete k: k absent afterwards, all other keys keep presence and state, ranks close up
@@ -91,6 +95,13 @@ package tls
 //@   let p = kpos(c, sessionKey)
 //@   requires c != nil && wfcache(c)
 //@   requires keynum: skey(strid(sessionKey)) == sessionKey
+//@   track locks
+//@   at before call Remove#0: assert exclusive_remove: ghost(lockst, callarg(Lock, 0, 0)) == 2
+//@   at before call MoveToFront#0: assert exclusive_move: ghost(lockst, callarg(Lock, 0, 0)) == 2
+//@   at before call PushFront#0: assert exclusive_push: ghost(lockst, callarg(Lock, 0, 0)) == 2
+//@   at before call Back#0: assert exclusive_back: ghost(lockst, callarg(Lock, 0, 0)) == 2
+//@   at before call MoveToFront#1: assert exclusive_move2: ghost(lockst, callarg(Lock, 0, 0)) == 2
+//@   ensures unlocked: ghost(lockst, callarg(Lock, 0, 0)) == 0
 //@   ensures wfbase: c.m != nil && c.q != nil && c.capacity >= 1 && seqwf(lseq(c))
 //@   ensures wfmap: wfmap(c)
 //@   ensures wflist: wflist(c)
